@@ -7,7 +7,7 @@ from .. import scratch
 
 ID = "C13"
 ANCHORS = 'tools.tomtom._tomtom,tools.tomtom._binned_median,tools.tomtom._pairwise_max'.split(",")
-MIN_INSTANCES = 20
+MIN_INSTANCES = 30
 EXPLANATION = (
     "R-TID: every array allocated before the prange loop of tomtom._tomtom and used inside it other than through the prange "
     "variable is per-thread scratch and must be addressed with the thread id (numba.get_thread_id()) as first index at every "
@@ -19,13 +19,17 @@ EXPLANATION = (
     "variables, Fourier-Motzkin projection and entailment; writes from earlier prange iterations (= what the thread "
     "processed before) are never accepted as cover. Reads whose coverage needs value reasoning are listed in a confirmed "
     "table naming the writes they rely on. N-NEAREST: argsort of the p-value column over the real targets, the same index "
-    "vector gathers the five fields and is stored as the index column. THREADS: the numba thread count is saved and restored."
+    "vector gathers the five fields and is stored as the index column. THREADS: the numba thread count is saved and restored. "
+    "R-BOUNDS: numba kernels are not bounds-checked, so an index outside a scratch allocation reads/writes whatever the allocator "
+    "placed next to it (another thread's scratch, heap metadata): for every point index of every inlined access, 0 <= index < extent "
+    "of the allocation is proved from the loop bounds by the linear engine (axes with a bilinear extent are listed as not decided)."
 )
 ASSUMPTIONS = [
     "numba prange: each iteration runs on one thread, get_thread_id() is constant within an iteration and distinct for concurrently "
     "running iterations",
     "facts used by the region analysis (each confirmed by reading): nq = Q_lens[i] <= max(Q_lens); nq >= 1; lengths in T_lens <= max(T_lens); "
-    "reverse_complement is passed as int(bool) in {0, 1}; n_bins, n_score_bins >= 1; offset, n_cache >= 0",
+    "reverse_complement is passed as int(bool) in {0, 1}; n_bins, n_score_bins >= 1; offset, n_cache >= 0; an element v of `for .. in enumerate(ARR)` "
+    "satisfies v <= max(ARR)",
     "bit-identity of floating-point results across thread counts follows from race freedom + per-query determinism (no cross-query "
     "reduction exists) and is not measured",
 ]
@@ -251,6 +255,7 @@ def scratch_rules(repo, fi, loop, pv, tv, arrays, ks):
         if re.fullmatch(r"offset@\d+|n_cache|n_median_bins", at):
             facts.append(ge(Lin.atom(at), 0))
     locals_ = sorted({a.arr for a in prepared if a.arr not in arrays})
+    out += bounds_rules(repo, fi, loop, prepared, arrays, locals_, extents, sub, facts)
     for name in list(arrays) + locals_:
         ext = [sub(d) if d is not None else None for d in extents.get(name, [])]
         role = "every cell of scratch `%s` read in an iteration was written earlier in the same iteration" % name.split(":")[-1]
@@ -289,6 +294,103 @@ def scratch_rules(repo, fi, loop, pv, tv, arrays, ks):
         else:
             out.append(holds("R-SCRATCH", fi, role, "%d reads covered by %d writes (%d by the confirmed table)" % (n_r, n_w, len(conf)), loop,
                              facts=["confirmed: %s - %s" % (c.text, CONFIRMED[(name, c.text)][0][:120]) for c in conf]))
+    return out
+
+
+# axes whose extent is bilinear in run-time scalars: in-bounds-ness is a property of the data (tomtom prints a warning when
+# offset > n_cache), not of the code shape
+BOUNDS_SKIP = {
+    ("_A", 2): "extent n_len = Q_max*n_score_bins + Q_max*n_cache vs. index < n = nq*n_bins + nq*offset: bilinear, needs offset <= n_cache (data)",
+    ("_A_csum", 2): "same n_len axis as _A",
+    ("_B", 1): "same n_len axis as _A",
+}
+
+
+def _element_facts(repo, atoms):
+    """`for i, v in enumerate(ARR)` / `for v in ARR` in a kernel: v <= max(ARR) (v is an element of ARR).  Only generated when ARR is a
+    parameter that every package call site binds to an argument of the same name, so `max(ARR)` denotes the same array everywhere."""
+    import re
+    facts = []
+    loops = {}
+    mi = repo.mod(T)
+    for f in mi.funcs.values():
+        for n in walk_no_nested(f.node):
+            if not isinstance(n, ast.For):
+                continue
+            it, tg = n.iter, n.target
+            if isinstance(it, ast.Call) and dotted(it.func) == "enumerate" and it.args and isinstance(it.args[0], ast.Name) \
+                    and isinstance(tg, ast.Tuple) and len(tg.elts) == 2 and isinstance(tg.elts[1], ast.Name):
+                loops[(tg.elts[1].id, n.lineno)] = (f, it.args[0].id)
+            elif isinstance(it, ast.Name) and isinstance(tg, ast.Name):
+                loops[(tg.id, n.lineno)] = (f, it.id)
+    for at in atoms:
+        m = re.fullmatch(r"(?:c[\d:]+:)?(\w+)~(\d+)", at)
+        if not m or (m.group(1), int(m.group(2))) not in loops:
+            continue
+        f, arr = loops[(m.group(1), int(m.group(2)))]
+        if arr not in f.params:
+            continue
+        same = True
+        for g in mi.funcs.values():
+            for c in ast.walk(g.node):
+                if isinstance(c, ast.Call) and isinstance(c.func, ast.Name) and c.func.id == f.name:
+                    k = f.params.index(arr)
+                    a = c.args[k] if k < len(c.args) else None
+                    if not (isinstance(a, ast.Name) and a.id == arr):
+                        same = False
+        if same:
+            facts.append(ge(Lin.atom("max(%s)" % arr), Lin.atom(at)))
+    return facts
+
+
+def bounds_rules(repo, fi, loop, prepared, arrays, locals_, extents, sub, facts):
+    """R-BOUNDS: numba does not bounds-check; an index outside the allocation writes into whatever the allocator placed next to
+    the scratch (another thread's scratch, allocator metadata), so results depend on threads and history."""
+    from ..affine import decide
+    out = []
+    atoms = {at for a in prepared for g in a.G for at in g.atoms()}
+    facts = list(facts) + _element_facts(repo, atoms)
+    for name in list(arrays) + list(locals_):
+        ext = [sub(d) if d is not None else None for d in extents.get(name, [])]
+        short = name.split(":")[-1]
+        role = "every point index into `%s` lies inside its allocation (axes with linear extents)" % short
+        seen, n_ok, skipped, bad, unk = set(), 0, set(), [], []
+        for a in prepared:
+            if a.arr != name:
+                continue
+            for k, ax in enumerate(a.idx):
+                if ax[0] != "lin":
+                    continue
+                if k >= len(ext) or ext[k] is None:
+                    skipped.add("axis %d: extent not linear" % k)
+                    continue
+                if (short, k) in BOUNDS_SKIP:
+                    skipped.add("axis %d: %s" % (k, BOUNDS_SKIP[(short, k)][:60]))
+                    continue
+                key = (k, repr(ax[1]), tuple(sorted(repr(g) for g in a.G)))
+                if key in seen:
+                    continue
+                seen.add(key)
+                G = list(a.G) + facts
+                for label, obl in (("index >= 0", ax[1]), ("index <= extent - 1", ext[k] - ax[1] - 1)):
+                    st, w = decide(G, obl)[:2]
+                    if st == "PROVED":
+                        n_ok += 1
+                    elif st == "REFUTED":
+                        bad.append((a, k, label, ext[k], w))
+                    else:
+                        unk.append((a, k, label))
+        if bad:
+            a, k, label, e, w = bad[0]
+            wit = {kk: v for kk, v in (w or {}).items() if len(kk) < 40} if isinstance(w, dict) else {}
+            out.append(violation("R-BOUNDS", fi, role, "%s: axis %d has extent `%s` but `%s` is not implied by the loop bounds (numba does not "
+                                 "check bounds: the access lands outside the allocation), e.g. %s" % (a.describe(), k, e, label, wit), a.node,
+                                 witness={"assignment": wit, "unproved": len(bad)}))
+        elif unk:
+            a, k, label = unk[0]
+            out.append(unrecognised("R-BOUNDS", fi, role, "%s axis %d: `%s` neither proved nor refuted" % (a.describe(), k, label), a.node))
+        elif n_ok:
+            out.append(holds("R-BOUNDS", fi, role, "%d obligations proved%s" % (n_ok, ("; not decided - " + "; ".join(sorted(skipped))) if skipped else ""), loop))
     return out
 
 
@@ -348,6 +450,7 @@ LEVEL_TEXT = ("Region-based definite-initialisation analysis of all per-thread s
               "an iteration is always one written in that iteration, so results cannot depend on what the thread processed before; "
               "plus thread-id addressing, write-disjointness of the prange body and the n_nearest gather.")
 LEVEL_NOTE = ("Decides: thread-id addressing of 9 scratch arrays, race freedom of the prange body, def-before-use of every scratch read "
-              "(3 reads via a confirmed table that names the writes relied on), n_nearest ranking/gather form, thread-count restore. Not "
-              "decided: bit-identity of float sums across thread counts (follows from the above; not measured); annotate_seqlets inherits.")
+              "(3 reads via a confirmed table that names the writes relied on), n_nearest ranking/gather form, thread-count restore, in-bounds-ness of every point index into the scratch arrays on "
+              "axes with linear extents. Not decided: the n_len axis of _A/_A_csum/_B (needs offset <= n_cache, a property of the data that "
+              "tomtom only warns about); bit-identity of float sums across thread counts (follows from the above; not measured); annotate_seqlets inherits.")
 TECHNIQUE = "region-based def-before-use dataflow over inlined numba kernels (linear constraints, unification + Fourier-Motzkin projection)"
